@@ -69,6 +69,18 @@ func (graph *Graph) Stabilize(ctx context.Context) (err error) {
 
 	var immediateRecompute []INode
 	var next INode
+	// "always" nodes taken off the heap during the pass go back on it when the pass ends,
+	// however it ends: deferred so that a pass stopped by a panic requeues them too. A node
+	// that was torn down during the pass (a bind dropped the subgraph it was part of) is
+	// no longer in the graph and has no height to be queued at; it is queued again when
+	// it next becomes necessary.
+	defer func() {
+		for _, n := range immediateRecompute {
+			if n.Node().height != HeightUnset {
+				graph.recomputeHeap.addIfNotPresent(n)
+			}
+		}
+	}()
 
 	// Checking for cancellation costs about 4.5ns against a node recompute of about 20ns,
 	// so it is done once per stride rather than per node, and not at all for a context that
@@ -92,21 +104,19 @@ func (graph *Graph) Stabilize(ctx context.Context) (err error) {
 			}
 		}
 		next, _ = graph.recomputeHeap.removeMinUnsafe()
-		err = graph.recompute(ctx, next, false /*parallel*/)
+		// recorded before the node is recomputed, so that a panic unwinding out of the
+		// recompute (of this node or of a dependent chained directly after it) does not
+		// lose it; see the deferred requeue above.
 		if next.Node().always {
 			immediateRecompute = append(immediateRecompute, next)
 		}
+		err = graph.recompute(ctx, next, false /*parallel*/)
 		if err != nil {
 			break
 		}
 	}
 	if err != nil {
 		graph.handleStabilizationError(ctx, err)
-	}
-	if len(immediateRecompute) > 0 {
-		for _, n := range immediateRecompute {
-			graph.recomputeHeap.addIfNotPresent(n)
-		}
 	}
 	return
 }
